@@ -5,3 +5,4 @@ open GN.Props.C01
 #print axioms failed_module_not_cached
 #print axioms thrown_value_is_delivered
 #print axioms uncaught_error_propagates_unchanged
+#print axioms code_equals_reference
